@@ -3,3 +3,4 @@ import Parmcb.Lemmas.Gf2
 import Parmcb.Props.C17
 import Parmcb.Driver.Proto
 import Parmcb.Driver.Gf2
+import Parmcb.Lemmas.Abstract
